@@ -4,7 +4,11 @@ Real threading.Thread objects run the harness bodies; every source line
 executed inside pamqp/* is a scheduling point (sys.settrace 'line' events).
 Threads of one execution never run simultaneously: each thread owns a
 semaphore (its baton) and only the thread that was handed the baton runs, so
-an execution is a pure function of its choice sequence and replays exactly.
+an execution is a pure function of its choice sequence and the library state
+it starts from.  When the library keeps state between executions (a cache),
+a recorded prefix may ask for a thread that is no longer enabled: such an
+execution is marked `diverged`, finishes with default choices, is judged
+like any other and counted, but its subtree is not expanded.
 
 A choice sequence lists, for every scheduling point, the index of the thread
 to run next in the canonical order "running thread first (if still enabled),
@@ -27,9 +31,10 @@ def _pamqp_dir():
 
 
 class Execution:
-    __slots__ = ('choices', 'points', 'results', 'errors')
+    __slots__ = ('choices', 'points', 'results', 'errors', 'diverged')
 
     def __init__(self):
+        self.diverged = False  # the prefix asked for a thread not enabled
         self.choices = []      # chosen index at each point
         self.points = []       # (n_enabled, running_still_enabled, tid)
         self.results = {}      # tid -> body result
@@ -83,8 +88,13 @@ class Runner:
                              self.max_points)
         c = prefix[i] if i < len(prefix) else 0
         if c >= len(enabled):
-            raise Divergence('choice %d out of range at point %d '
-                             '(enabled %r)' % (c, i, enabled))
+            # The prefix was recorded on an execution that met other
+            # scheduling points: the library's control flow depends on what
+            # ran before (a cache being filled, evicted, cleared).  That is
+            # not an error by itself; the execution continues with default
+            # choices, is marked, and its results are judged all the same.
+            ex.diverged = True
+            c = 0
         ex.choices.append(c)
         ex.points.append((len(enabled), running_enabled, tid))
         return enabled[c]
@@ -213,7 +223,7 @@ def explore(runner, bound, check, shard=None, max_executions=None):
     The shards partition the schedule set.  Returns statistics.
     """
     stats = {'executions': 0, 'points': 0, 'max_points': 0,
-             'with_preemption': 0, 'capped': False}
+             'with_preemption': 0, 'capped': False, 'diverged': 0}
 
     def visit(x):
         stats['executions'] += 1
@@ -228,8 +238,12 @@ def explore(runner, bound, check, shard=None, max_executions=None):
             stats['capped'] = True
             return
         x = runner.run(prefix)
-        if x.choices[:len(prefix)] != list(prefix):
-            raise Divergence('prefix not reproduced')
+        if x.diverged or x.choices[:len(prefix)] != list(prefix):
+            # judged, but not expanded: its subtree is not the one planned
+            stats['diverged'] += 1
+            if mine or shard is None or shard[0] == 0:
+                visit(x)
+            return
         # executions above the first preemptive deviation belong to shard 0
         if mine or shard[0] == 0:
             visit(x)
